@@ -23,6 +23,8 @@ struct cfg {
   int allow_dup, allow_reorder;
   int deaf_first; /* every copy of the first request is lost: it ends by give-up (NACK); the later requests must still work */
   int burst; /* the application submits all (Confirmable) requests back to back; NSTART (1) holds the later ones */
+  int other; /* a second session of the same client context has a Confirmable to a dead peer in its back-off (two retransmissions
+              * made, the third 8-12 s away) when the script starts: its own one outstanding exchange, sharing the send queue */
 };
 
 struct req {
@@ -42,7 +44,10 @@ struct req {
 static struct cfg *C;
 static coap_context_t *cc, *sc;
 static coap_session_t *cs;
-static coap_address_t srv_addr, cli_addr;
+static coap_address_t srv_addr, cli_addr, cli2_addr, dead_addr;
+static coap_session_t *cs2;
+static int other_tx, other_nacks, other_resp;
+#define OTHER_TOK 0xD7
 static struct req reqs[3];
 static int next_req;
 static coap_async_t *pending_asyncs[4]; /* FIFO of registered, not yet triggered open-ended async entries */
@@ -111,6 +116,10 @@ resp_handler(coap_session_t *session, const coap_pdu_t *sent, const coap_pdu_t *
   coap_get_data(received, &len, &data);
   vx_observe("t=%llu RESP-HANDLER req=%d type=%d code=%d mid=%04x len=%zu sent=%s", (unsigned long long)ns_now(), i,
              coap_pdu_get_type(received), coap_pdu_get_code(received), mid, len, sent ? "y" : "n");
+  if (i < 0 && C->other && t.length == 1 && t.s[0] == OTHER_TOK) {
+    other_resp++;
+    return COAP_RESPONSE_OK;
+  }
   if (i < 0) {
     char hx[20];
     vx_hex(hx, sizeof hx, t.s, t.length);
@@ -152,6 +161,8 @@ nack_handler(coap_session_t *session, const coap_pdu_t *sent, const coap_nack_re
   if (sent) {
     coap_bin_const_t t = coap_pdu_get_token(sent);
     i = req_by_token(t.s, t.length);
+    if (i < 0 && C->other && t.length == 1 && t.s[0] == OTHER_TOK)
+      other_nacks++;
   }
   vx_observe("t=%llu NACK-HANDLER req=%d reason=%d mid=%04x", (unsigned long long)ns_now(), i, reason, mid);
   if (i >= 0) {
@@ -251,6 +262,13 @@ static void
 on_send(const ns_dgram_t *d) {
   struct w_msg m;
   int from_client = ns_addr_host(&d->src) == ns_addr_host(&cli_addr);
+  if (C->other && ns_addr_host(&d->src) == ns_addr_host(&cli2_addr)) {
+    other_tx++;
+    vx_observe("t=%llu C2 TX (other session, copy %d)", (unsigned long long)ns_now(), other_tx);
+    if (other_nacks)
+      vx_fail("retx:after-nack:other-session", "the other session's request was transmitted again after its NACK");
+    return;
+  }
   if (!w_parse(d->data, d->len, &m)) {
     vx_fail("wire:malformed", "%s emitted a malformed datagram", from_client ? "client" : "server");
     return;
@@ -393,6 +411,13 @@ step(void) {
   uint8_t cost[VX_MAXALT];
   int n = 0;
   unsigned tmo = ns_prepare_all();
+  if (C->other)
+    for (int j = 0; j < ns_inflight_count();) { /* nobody lives at the other session's peer address */
+      if (ns_addr_host(&ns_inflight(j)->dst) == ns_addr_host(&dead_addr))
+        ns_drop(j);
+      else
+        j++;
+    }
   if (C->deaf_first && reqs[0].submitted) {
     /* the network loses every copy of request 0 */
     for (int j = 0; j < ns_inflight_count();) {
@@ -510,6 +535,29 @@ run(void *arg) {
   coap_register_response_handler(cc, resp_handler);
   coap_register_nack_handler(cc, nack_handler);
   cs = coap_new_client_session(cc, &cli_addr, &srv_addr, COAP_PROTO_UDP);
+  cs2 = NULL;
+  other_tx = other_nacks = other_resp = 0;
+  if (C->other) {
+    ns_addr(&cli2_addr, 51, 40002);
+    ns_addr(&dead_addr, 9, 5683);
+    cs2 = coap_new_client_session(cc, &cli2_addr, &dead_addr, COAP_PROTO_UDP);
+    coap_pdu_t *p = coap_new_pdu(COAP_MESSAGE_CON, COAP_REQUEST_CODE_GET, cs2);
+    uint8_t ot = OTHER_TOK;
+    coap_add_token(p, 1, &ot);
+    coap_add_option(p, COAP_OPTION_URI_PATH, 1, (const uint8_t *)"r");
+    coap_send(cs2, p);
+    for (int k = 0; k < 2; k++) { /* two retransmissions, all lost */
+      unsigned t = ns_prepare_all();
+      while (ns_inflight_count())
+        ns_drop(0);
+      ns_advance(t);
+    }
+    ns_prepare_all();
+    while (ns_inflight_count())
+      ns_drop(0);
+    ns_advance(3500); /* well inside the 8-12 s back-off before the third */
+    vx_observe("t=%llu other session: %d copies sent so far", (unsigned long long)ns_now(), other_tx);
+  }
   int steps = 0;
   while (steps++ < 500 && step())
     ;
@@ -552,7 +600,14 @@ run(void *arg) {
     }
     o += (size_t)snprintf(oc + o, sizeof oc - o, "%sr%dn%dtx%d", i ? "," : "", r->resp_calls, r->nacks, r->tx);
   }
+  if (C->other && (other_nacks != 1 || other_resp)) {
+    char sig[100];
+    snprintf(sig, sizeof sig, "conclude:other-session:nacks=%d:responses=%d", other_nacks, other_resp);
+    vx_fail(sig, "the other session's Confirmable to a dead peer (%d copies sent) ended with %d NACKs and %d responses", other_tx, other_nacks, other_resp);
+  }
   vx_outcome("%s", oc);
+  if (cs2)
+    coap_session_release(cs2);
   coap_session_release(cs);
   ns_unregister_ctx(cc);
   coap_free_context(cc);
@@ -568,8 +623,8 @@ static int ncfgs;
 static void
 add(struct cfg c) {
   cfgs = realloc(cfgs, sizeof *cfgs * (size_t)(ncfgs + 1));
-  snprintf(c.name, sizeof c.name, "c07:%s,n=%d,k=%s,tkl=%d%d%d,fail=%d,fd=%d,dup=%d,ro=%d,burst=%d,deaf=%d,B=%d", style_names[c.style], c.nreq, c.kinds,
-           c.tkls[0], c.tkls[1], c.tkls[2], c.fail_mask, c.free_drops, c.allow_dup, c.allow_reorder, c.burst, c.deaf_first, c.bound);
+  snprintf(c.name, sizeof c.name, "c07:%s,n=%d,k=%s,tkl=%d%d%d,fail=%d,fd=%d,dup=%d,ro=%d,burst=%d,deaf=%d,other=%d,B=%d", style_names[c.style], c.nreq, c.kinds,
+           c.tkls[0], c.tkls[1], c.tkls[2], c.fail_mask, c.free_drops, c.allow_dup, c.allow_reorder, c.burst, c.deaf_first, c.other, c.bound);
   cfgs[ncfgs++] = c;
 }
 
@@ -617,6 +672,15 @@ main(int argc, char **argv) {
       strcpy(c.kinds, "GG");
       add(c);
     }
+  /* several sessions per context, one exchange each: while the script runs, another session of the same client context sits
+   * in the back-off of a Confirmable to a dead peer (its retransmissions and give-up share the send queue) */
+  for (int st = 0; st <= ST_RAW_ACK_CON; st++) {
+    if (!T && st != ST_PIGGY && st != ST_ASYNC_TRIG && st != ST_RAW_ACK_CON)
+      continue;
+    struct cfg c = {.style = st, .nreq = 2, .tkls = {2, 8, 0}, .bound = T ? 3 : 2, .allow_dup = 1, .allow_reorder = 1, .other = 1};
+    strcpy(c.kinds, "GP");
+    add(c);
+  }
   /* all drop subsets of the first 10 datagrams: piggybacked style (where every subset must end in response or NACK) */
   for (int s = 0; s < 2; s++) {
     struct cfg c = {.style = ST_PIGGY, .nreq = 1, .tkls = {2, 0, 0}, .bound = 0, .free_drops = 10};
@@ -631,7 +695,7 @@ main(int argc, char **argv) {
   vx_ev_rule("executions of a real libcoap client against a real libcoap server (piggybacked / async separate response) or a raw peer "
              "(empty ACK + separate NON/CON in either order); request sequences of 1-3 CON GET / CON PUT / NON GET with token lengths 0/2/8 "
              "and handler verdicts OK/FAIL; all schedules with <= bound drop/duplicate/reorder deviations, timers only when the network is "
-             "empty (delay < ACK_TIMEOUT); plus all 2^10 drop subsets of the first 10 datagrams for the piggybacked style, back-to-back submissions (later requests held by NSTART) and a first exchange that ends by give-up; non-trivial = a "
+             "empty (delay < ACK_TIMEOUT); plus all 2^10 drop subsets of the first 10 datagrams for the piggybacked style, back-to-back submissions (later requests held by NSTART), a first exchange that ends by give-up, and a second session of the same context in the back-off of its own Confirmable to a dead peer; non-trivial = a "
              "deviation was taken or a retransmission occurred; distinct = distinct observation logs");
   vx_ev_assumption("server applications answer (coap_async_trigger) before any client timer fires; a server that never answers after its empty ACK is outside the statement");
   vx_ev_assumption("raw peers are idempotent: every copy of a request is answered with the same message ids");
